@@ -299,6 +299,22 @@ def r_self(sim):
     return [t1, t2]
 
 
+def r_big252(sim):
+    ops = sim.spendable(SPENDABLE_KEYS)
+    if not ops:
+        return []
+    v = _val(sim, ops[0])
+    outs = [('ABCD'[i % 4], 1000 + i) for i in range(252)]
+    outs.append(('A', v - sum(x[1] for x in outs)))
+    return [sim.spend([ops[0]], outs)]
+
+
+def r_sweep252(sim):
+    '''One tx per small output of the big tx: a block of 253 txs (3-byte tx count).'''
+    ops = [op for op in sim.spendable(SPENDABLE_KEYS) if 1000 <= _val(sim, op) < 1252]
+    return [sim.spend([op], [('D', _val(sim, op))]) for op in ops[:252]]
+
+
 def _collide(k):
     def recipe(sim):
         return ('collision-coinbase', k)
@@ -319,7 +335,7 @@ def _spend_collide(k):
 
 RECIPES = {
     'cb': r_cb, 'old': r_spend_old, 'new': r_spend_new, 'chain2': r_chain2, 'fan': r_fan,
-    'multi': r_multi, 'opret': r_opret_spend, 'empty': r_spend_empty, 'self': r_self,
+    'multi': r_multi, 'opret': r_opret_spend, 'big252': r_big252, 'sweep252': r_sweep252, 'empty': r_spend_empty, 'self': r_self,
     'col0': _collide(0), 'col1': _collide(1), 'col2': _collide(2),
     'scol0': _spend_collide(0), 'scol1': _spend_collide(1), 'scol2': _spend_collide(2),
 }
